@@ -20,7 +20,7 @@ pub fn prop() -> Prop {
 }
 
 fn dec(c: &enc::Chunk) -> Chunk {
-    Chunk::try_from(&c.encode()[..]).expect("harness chunk must decode (C03 checks chunks)")
+    super::must_chunk(&c.encode())
 }
 /// outcome class: Ok(debug image) or Err(variant name)
 fn outcome(r: Result<PwbV2Packet, alpha_g_detector::padwing::TryPwbPacketFromChunksError>) -> Result<String, String> {
